@@ -58,6 +58,10 @@ CHECKS = {
    "bounded-exhaustive enumeration of BED records x type x every narrower write width and of GFF features/regions/inline sequences x header on/off on the real writers and readers, field-wise comparison, 1-based text columns, byte counts",
    "Product of edge values for every BED field (incl. MinInt64/MaxInt64, negative scores, all strands, zero/opaque colours, 1..3 blocks) for types 3/4/5/6/12 at every width <= type; GFF product over names with inner spaces, starts {0,1,9,-3}, lengths {1,5,2^40}, scores {nil,0,-1.5,0.1,1e-300,MaxFloat64,+-Inf}, strands, frames, attribute lists (digits and underscores in tags, quoted and empty values), comments; sequence-region lines; inline DNA/RNA/protein sequences at widths 1,2,60; mixed files.",
    "Well-formed fields as the statement defines them; nil == empty attribute list; NaN scores excluded."),
+ "C03": (E3, "exploration", "DESIGN.md §3 C03",
+   "bounded-exhaustive enumeration of line-token sequences, short structural byte strings and single/double mutations of valid seed files fed to every reader; panic/contract/call-bound/must-error oracle",
+   "Per format (FASTA, FASTQ, BED3/4/5/6/12, GFF): every sequence of <=3 (thorough 4) line tokens from an alphabet holding every line shape the parsers distinguish and every invalid shape the statement lists, with LF, CRLF and without final newline; every byte string of length <=4 (5) over 15 structural bytes; every single (thorough: pairs of) mutation of a valid file incl. truncation at every byte offset.",
+   "Must-error is demanded only for the invalid kinds the statement names, with inline-sequence context tracked; hangs are detected by a progress watchdog and confirmed in a child process."),
 }
 PENDING = {}  # id -> reason, for properties not (yet) claimed
 
